@@ -43,7 +43,7 @@ ASSUMPTIONS = [
     "golden corpus entries were produced at revision 69a5132 and kept only where the reference decoder agreed with the written observations",
 ]
 SHARDS = {"quick": 8, "thorough": 16}
-BUDGET_S = {"quick": 150, "thorough": 1200}
+BUDGET_S = {"quick": 150, "thorough": 2400}
 ANCHORS = [
     "flow.record.stream:RecordStreamWriter.writeheader",
     "flow.record.base:RecordDescriptor.calc_descriptor_hash",
@@ -84,14 +84,14 @@ def teardown(ctx):
 def generate(ctx):
     cells = gen.all_cells()
     idx = 0
-    for rep in range(ctx.scale(1, 4)):
+    for rep in range(ctx.scale(1, 8)):
         for t, vc in cells:
             if vc == "extreme" and rep > 0:
                 continue
             if ctx.mine(idx):
                 yield {"k": "impl", "t": t, "vc": vc, "s": subseed("c02", ctx.seed, "impl", t, vc, rep)}
             idx += 1
-    for rep in range(ctx.scale(1, 3)):
+    for rep in range(ctx.scale(1, 6)):
         for t, vc in cells:
             if vc == "extreme":
                 continue
@@ -99,12 +99,12 @@ def generate(ctx):
             if ctx.mine(idx):
                 yield {"k": "ref", "t": t, "vc": vc, "variant": v, "s": subseed("c02", ctx.seed, "ref", t, vc, rep)}
             idx += 1
-    n = ctx.scale(60, 800)
+    n = ctx.scale(60, 2000)
     for i in range(n):
         yield {"k": "impl", "s": subseed("c02", ctx.seed, "implmix", ctx.shard, i)}
         yield {"k": "ref", "variant": VARIANTS[i % len(VARIANTS)]["name"], "s": subseed("c02", ctx.seed, "refmix", ctx.shard, i)}
     # identifier-coincident types interleaved (both directions); comparison ignore-list active while writing
-    for i in range(ctx.scale(12, 80)):
+    for i in range(ctx.scale(12, 240)):
         yield {"k": "impl", "co": 1, "s": subseed("c02", ctx.seed, "implco", ctx.shard, i)}
         yield {"k": "ref", "co": 1, "variant": ["minimal", "nonminimal", "extra-reserved-1", "no-version"][i % 4], "s": subseed("c02", ctx.seed, "refco", ctx.shard, i)}
         yield {"k": "impl", "ignore": [["_generated"], ["<all>"]][i % 2], "s": subseed("c02", ctx.seed, "implcfg", ctx.shard, i)}
@@ -113,7 +113,7 @@ def generate(ctx):
         yield {"k": "many", "n": ctx.scale(2600, 40000), "s": subseed("c02", ctx.seed, "many")}
     # scenarios around the descriptor table: clones under a new name of descriptors already in use, records that fail while
     # being packed (the application carries on), a consumer that builds equal descriptors while reading / two readers side by side
-    for i in range(ctx.scale(45, 450)):
+    for i in range(ctx.scale(45, 1500)):
         yield {"k": "scenario", "sub": ("clone", "packfail", "midread")[i % 3], "s": subseed("c02", ctx.seed, "scenario", ctx.shard, i)}
     # hand-written literals: the expected observation does not come from the library (both directions)
     from .. import literals
